@@ -340,6 +340,15 @@ func c02Send(s *drv.Server, e c02Event) error {
 		return s.Save("a.lua", e.Text)
 	case "close":
 		return s.CloseDoc("a.lua")
+	case "config":
+		all := make([]bool, 26)
+		for i := range all {
+			all[i] = true
+		}
+		if err := s.Notify("workspace/didChangeConfiguration", c17Settings(all)); err != nil {
+			return err
+		}
+		return s.Notify("workspace/didChangeConfiguration", c17Settings(all))
 	case "inc", "batch":
 		var eds []drv.Edit
 		for _, x := range e.Ed {
